@@ -602,6 +602,7 @@ type absEngine struct {
 	// hooks
 	onCall   func(e *absEngine, fr *frame, st *nst, call *ssa.Call) // observe calls (obligations of clients)
 	onReturn func(e *absEngine, fr *frame, st *nst, ret *ssa.Return)
+	onStoreCell func(e *absEngine, fr *frame, st *nst, cell string)
 	loopCheck bool
 	steps    int
 	dbgState *nst
@@ -895,6 +896,9 @@ func (e *absEngine) step(fr *frame, st *nst, in ssa.Instruction) {
 				st.assign(c, l, e.imp())
 			} else {
 				st.forget(c)
+			}
+			if e.onStoreCell != nil {
+				e.onStoreCell(e, fr, st, c)
 			}
 			return
 		}
